@@ -149,6 +149,8 @@ def choose_limits(rng, spec, df, ta):
             lim[k] = [lo, hi]
             plan.setdefault(c["name"], {})[k] = mode
         c["limits"] = lim
+        if rng.random() < 0.3:
+            c["via_toml"] = True  # the component (with its [limits] table) comes from a parameter file
     return out, plan
 
 
